@@ -283,7 +283,8 @@ impl<'de> De<'de> {
 
     fn visit_text<V: Visitor<'de>>(self, s: &'de str, v: V) -> Result<V::Value, SimError> {
         self.env.step(RStep::Leaf, self.depth)?;
-        deliver_str(self.env.cfg.key_form, s, v)
+        let form = if self.env.cfg.key_form.is_bytes() { KeyForm::Str } else { self.env.cfg.key_form };
+        deliver_str(form, s, v)
     }
 
     fn record<V: Visitor<'de>>(
@@ -386,6 +387,11 @@ fn deliver_str<'de, V: Visitor<'de>>(form: KeyForm, s: &'de str, v: V) -> Result
         }
         KeyForm::Borrowed => v.visit_borrowed_str(s),
         KeyForm::String => v.visit_string(s.to_string()),
+        KeyForm::Bytes => {
+            let tmp = s.as_bytes().to_vec();
+            v.visit_bytes(&tmp)
+        }
+        KeyForm::BorrowedBytes => v.visit_borrowed_bytes(s.as_bytes()),
     }
 }
 
